@@ -66,6 +66,11 @@ pub fn run(ctx: &mut Ctx) {
     }
     ctx.note(format!("exhaustive part: all {} byte strings of length <= {max_len} over [EF BB BF FF FE LF 'a' 00 '['] under every fixed chunk size", idx));
 
+    // stream 3: one line far longer than any buffer a reader might size for itself (over 1 MiB), a few deliveries
+    if ctx.shard == 0 {
+        long_line_case(ctx);
+    }
+
     // stream 1: bundled files in four encodings
     for (i, (_, bytes)) in corpus.files.iter().enumerate() {
         if (i as u64) % ctx.nshards != ctx.shard {
@@ -113,6 +118,44 @@ pub fn run(ctx: &mut Ctx) {
         one_input(ctx, i, &bytes, "generated", &mut r, true);
         if ctx.out_of_time() {
             break;
+        }
+    }
+}
+
+fn long_line_case(ctx: &mut Ctx) {
+    for (k, unit) in ["a", "\u{97f3}"].iter().enumerate() {
+        let text = format!("osu file format v9\n[Metadata]\nTitle:{}\nArtist:after the long line\n", unit.repeat(1_200_000 / unit.len()));
+        for enc in [gen::Enc::Utf8, gen::Enc::Utf16Le] {
+            let bytes = gen::transcode(&text, enc);
+            let index = 3 << 56 | (k as u64) << 8 | enc as u64;
+            let w = format!("a {}-byte file whose third line has {} bytes", bytes.len(), bytes.len() - 60);
+            ctx.case(index, w.as_bytes(), |ctx| {
+                let Ok(t0) = rosu_map::from_bytes::<Trace>(&bytes) else {
+                    ctx.violation("err_from_memory", "from_bytes failed".into(), index, w.as_bytes());
+                    return;
+                };
+                ctx.count("long_line_files");
+                let deliveries: Vec<(&str, Result<Trace, String>)> = vec![
+                    ("BufReader::new", Trace::decode(BufReader::new(Cursor::new(&bytes))).map_err(|e| format!("{e:?}"))),
+                    ("BufReader::with_capacity(65536)", Trace::decode(BufReader::with_capacity(65536, Cursor::new(&bytes))).map_err(|e| format!("{e:?}"))),
+                    ("chunks of 4096", Trace::decode(ChunkReader::new(&bytes, vec![4096], Vec::new())).map_err(|e| format!("{e:?}"))),
+                    ("chunks of 1000000, 5", Trace::decode(ChunkReader::new(&bytes, vec![1_000_000, 5], Vec::new())).map_err(|e| format!("{e:?}"))),
+                ];
+                for (what, res) in deliveries {
+                    ctx.count("long_line_deliveries_compared");
+                    match res {
+                        Ok(t) if t == t0 => {}
+                        Ok(t) => ctx.violation(
+                            "delivery_changes_trace",
+                            format!("{what}: a file with one very long line is dispatched differently than by from_bytes ({} vs {} lines, longest {} vs {} bytes)", t.calls.len(), t0.calls.len(), t.calls.iter().map(|c| c.1.len()).max().unwrap_or(0), t0.calls.iter().map(|c| c.1.len()).max().unwrap_or(0)),
+                            index,
+                            w.as_bytes(),
+                        ),
+                        Err(e) => ctx.violation("delivery_error", format!("{what}: decode returned Err({e}) although the reader never failed"), index, w.as_bytes()),
+                    }
+                }
+            });
+            ctx.eval(fnv64(w.as_bytes()), true);
         }
     }
 }
